@@ -50,8 +50,32 @@ def run(chk, repo):
                    "'H2xH')", gs))
     chk.ob("R14.1", T + ".get_state", "reads AL status 0x0130 (state word, "
            "status code)", ok, gs, "FPRD 0x130 'H2xH'")
-    ok = bool(find("(MachineState(state & 15), bool(state & 16), status)",
-                   gs))
+    # the decoding of the AL status word, by abstract execution of
+    # get_state for every value of its low five bits (and set high bits)
+    tci = repo.cls(T)
+    bad_ = []
+    for al in list(range(32)) + [0x100 | x for x in (1, 0x12, 8)]:
+        me_ = Obj(tci, {"position": 7, "ec": Obj(None, {"roundtrip": (
+            "hook", lambda *a, _al=al: (_al, 0x99))})})
+        want_state = [n for n, v in CODES.items() if v == al & 0xf]
+        try:
+            r_ = Evaluator(repo, tci.module, tci).call_function(
+                gs, [me_], cls=tci)
+        except Raised as e:
+            if want_state:
+                bad_.append(f"status {al:#x}: raises {e.what[:30]}")
+            continue
+        except Unknown as e:
+            raise AnalysisError(f"{T}.get_state: cannot be evaluated: {e}")
+        if not want_state:
+            bad_.append(f"status {al:#x}: returns {r_!r} for an undefined "
+                        f"state code")
+            continue
+        if not (isinstance(r_, tuple) and len(r_) == 3 and isinstance(
+                r_[0], EnumVal) and r_[0].name == want_state[0]
+                and r_[1] is bool(al & 0x10) and r_[2] == 0x99):
+            bad_.append(f"status {al:#x}: decoded as {r_!r}")
+    ok = not bad_
     chk.ob("R14.1", T + ".get_state", "state = low nibble, error = bit 4",
            ok, gs, "MachineState(state & 0xf), bool(state & 0x10)")
     ss = repo.func(T + ".set_state")
@@ -60,6 +84,8 @@ def run(chk, repo):
     chk.ob("R14.1", T + ".set_state", "writes AL control 0x0120", ok, ss,
            "FPWR 0x120 'H' state.value")
     walk(chk, repo)
+    from . import c24
+    c24.release_is_sent(chk, repo)
     chk.doc("R14.5", "subclasses of Terminal do not re-implement the state "
                      "requests")
     override_rule(chk, repo, "R14.5", T, ["set_state", "get_state",
